@@ -517,6 +517,7 @@ class Client:
         except ssl.SSLError as e:
             raise Error("SSL error: %s" % str(e))
         self.sock = nsock
+        self.__read_buffer = b""
         self.__capabilities = {}
         self.__get_capabilities()
         return True
